@@ -109,7 +109,16 @@ def run(facts):
         if not g or not s:
             r.bad(Violation("SIBLING", key, "anchor-missing", G_FILE, 0, "sibling pair %s not found in both files - fail closed" % key))
             continue
-        a, c = const_index_accesses(g), const_index_accesses(s)
+        a, c = Counter(), Counter()
+        for bb in facts.with_closures(g):
+            a += const_index_accesses(bb)
+        for bb in facts.with_closures(s):
+            c += const_index_accesses(bb)
+        if any(k[1] == "var" for k in list(a) + list(c)):
+            # an index that is neither a constant nor k / 1-k of the body's own direction (e.g. a closure parameter): shape not recognised
+            r.silent += 1
+            r.ok(key, "index-accesses", "index expression not classifiable in one of the twins: silent (%s)" % why)
+            continue
         # compare WHICH (field, index, r/w) accesses occur, not how often: reading a slot once into a temporary instead of twice is the same code
         if set(a) == set(c) and a:
             r.ok(key, "index-accesses", "both: %s (%s)" % (dict(a), why))
